@@ -22,6 +22,9 @@ ASSUMPTIONS = [
 ]
 
 
+BUDGET_CEILING = 1 << 16
+
+
 def r13_1(ctx, R):
     ctx.rule("R13.1", "budgeted drain loop: loops containing a CHILD-POLL have a constant-initialised counter, +const per "
                       "iteration in a block dominating the child poll and all back-edge tails, a comparison with a constant "
@@ -57,10 +60,14 @@ def r13_1(ctx, R):
                 continue
             if found:
                 ok = found["exit_ok"] and found["room"] >= 1
+                # sanity ceiling: "a bounded amount of child polling" per call must stay a modest number; a budget beyond
+                # 65536 polls is an unbounded loop in practice (today: 61)
+                if found["room"] > BUDGET_CEILING:
+                    ok = False
                 det = ("counter _%d init %s at %s, step %+d at %s, budget exhausted when count %s %s (edge bb%d->bb%d); on exhaustion: "
-                       "leaves the loop, self-wake and Pending on every feasible path: %s (%s); admits >=1 child poll: %s" % (
+                       "leaves the loop, self-wake and Pending on every feasible path: %s (%s); admits >=1 and <= 65536 child polls: %s" % (
                            found["l"], found["init"][1], d.loc(found["init"][0]), found["step"], [d.loc(x) for x in found["steps"]],
-                           found["cmp"], found["bound"], found["sb"], found["tgt"], found["exit_ok"], found["exit_det"], found["room"] >= 1))
+                           found["cmp"], found["bound"], found["sb"], found["tgt"], found["exit_ok"], found["exit_det"], 1 <= found["room"] <= BUDGET_CEILING))
             ctx.ob("R13.1", d, "child-poll-loop-is-budgeted@head-ord%d" % sorted(loops).index(head), ok, d.loc(head), det)
     ctx.floor("R13.1", "loops-with-child-poll", n, 1)
     # merge outer loop: back edges only behind a removal
